@@ -281,6 +281,7 @@ func (s *Session) Read(b []byte) (n int, err error) {
 
 			// recvQueue is empty and we haven't read anything.
 			// Wait for incoming segments to fill the recvQueue.
+			verifPoint(1)
 			select {
 			case <-s.closedChan:
 				return 0, io.EOF
@@ -596,6 +597,7 @@ func (s *Session) writeChunk(b []byte) (n int, err error) {
 		time.Sleep(backPressureDelay) // add back pressure if queue is full
 	}
 
+	verifPoint(3)
 	s.oLock.Lock()
 	ptr := b
 	for i := nFragment - 1; i >= 0; i-- {
@@ -1309,6 +1311,7 @@ func (s *Session) closeWithError(err error) error {
 
 	// Don't clear receive buf and queue, because read is allowed after
 	// the session is closed.
+	verifPoint(2)
 	s.sendQueue.DeleteAll()
 	s.sendBuf.DeleteAll()
 	s.forwardStateTo(sessionClosed)
